@@ -12,6 +12,7 @@ import (
 	"math"
 	"math/big"
 	"strings"
+	"sync"
 )
 
 func recoverStr(f func() string) (out string) {
@@ -137,4 +138,98 @@ func (c *Ctx) goPrimitives() {
 		}))
 	}
 	r.note("Go primitives (GoSem.lean vs the Go operations): %d operand pairs over int/uint arithmetic, shifts, conversions, math/big, FillBytes, slicing, make, counting loop", n)
+}
+
+// goMapPrimitives compares the concrete-state vocabulary of the translated Language.mapping
+// (lean/Bip39V/Model/GoMap.lean: make, assignment to an entry of a possibly nil map, lookup with
+// last-write-wins, nil test, sync.Once.Do in sequential use) with real Go maps and sync.Once on
+// random scripts.
+func (c *Ctx) goMapPrimitives() {
+	r := c.rep
+	n := 200
+	if !c.quick {
+		n = 5000
+	}
+	keys := []string{"", "a", "ab", "abandon", "é", "é", "\xff", "\xc3", "가", "的", "a b", "zoo"}
+	for k := 0; k < n; k++ {
+		var maps [3]map[string]int64
+		var onces [3]sync.Once
+		var toks, outs []string
+		inner := func(closure bool) (string, func()) {
+			v := c.rng.Intn(3)
+			key := keys[c.rng.Intn(len(keys))]
+			switch x := c.rng.Intn(10); {
+			case x < 2:
+				return fmt.Sprintf("M%d", v), func() { maps[v] = make(map[string]int64, 4) }
+			case x < 7 || closure:
+				val := int64(c.rng.Intn(5000)) - 100
+				return fmt.Sprintf("A%d:%s:%d", v, hx([]byte(key)), val), func() { maps[v][key] = val }
+			case x < 9:
+				return fmt.Sprintf("G%d:%s", v, hx([]byte(key))), func() {
+					if val, ok := maps[v][key]; ok {
+						outs = append(outs, fmt.Sprint(val))
+					} else {
+						outs = append(outs, "none")
+					}
+				}
+			default:
+				return fmt.Sprintf("N%d", v), func() {
+					if maps[v] == nil {
+						outs = append(outs, "nil")
+					} else {
+						outs = append(outs, "nonnil")
+					}
+				}
+			}
+		}
+		var steps []func()
+		for j := 2 + c.rng.Intn(14); j > 0; j-- {
+			if c.rng.Intn(4) == 0 {
+				cell := c.rng.Intn(3)
+				var its []string
+				var fs []func()
+				for q := c.rng.Intn(4); q > 0; q-- {
+					t, f := inner(true)
+					its = append(its, t)
+					fs = append(fs, f)
+				}
+				toks = append(toks, fmt.Sprintf("O%d(%s)", cell, strings.Join(its, ";")))
+				steps = append(steps, func() {
+					onces[cell].Do(func() {
+						for _, f := range fs {
+							f()
+						}
+					})
+				})
+				continue
+			}
+			t, f := inner(false)
+			toks = append(toks, t)
+			steps = append(steps, f)
+		}
+		want := func() (out string) {
+			defer func() {
+				if rec := recover(); rec != nil {
+					if strings.Contains(fmt.Sprint(rec), "assignment to entry in nil map") {
+						out = "panic nilMapWrite"
+					} else {
+						out = "panic " + fmt.Sprint(rec)
+					}
+				}
+			}()
+			for _, f := range steps {
+				f()
+			}
+			return strings.TrimSpace("ok " + strings.Join(outs, " "))
+		}()
+		op := "primmap " + strings.Join(toks, " ")
+		m, _ := c.drv.Ask(op)
+		r.count("go-primitive:map+once")
+		r.nontrivial(op)
+		if m != want {
+			r.stale(Violation{Kind: "impl≠model", Class: "go-primitive", Op: op, Impl: want, Model: m,
+				Detail: "the meaning GoMap.lean gives to map/sync.Once operations differs from Go"})
+		}
+	}
+	r.note("Go map and sync.Once primitives (GoMap.lean vs real maps and Once): %d random scripts", n)
 }
